@@ -17,6 +17,10 @@ ALL_KINDS = ["str", "slice", "array", "stream", "bstream", "mapped", "mstream", 
 # &Graphemes: tokens are grapheme clusters (G = e + combining acute, U = a two-code-point flag), spans byte offsets
 # left-recursive grammars have no PEG denotation (the reference would not terminate): machine-only invariants
 NO_DEN = ["InspConsistent", "CursorInBounds", "NoPanic", "StepBound"]
+# the repository's example grammars (family exT): a JSON-ish and a parenthesis/identifier alphabet
+EXJ = ["[", "]", ",", "1", "n", "S"]
+EXP = ["(", ")", "+", "a", ",", "S"]
+INV_TEXT = DEFAULT_INVARIANTS + ["TextRefines"]
 
 
 def ex(name, fam, size, length, **kw):
@@ -136,14 +140,18 @@ PLANS = {
     },
     "C08": {
         "quick": [ex("rcv3", "rcv", 3, 3), ex("rcv2e", "rcv", 2, 3, etys=["empty", "cheap"], modes=["E"]), ex("rcvT", "rcvT", 1, 4, alphabet=["a", "b", "!"]),
+                  ex("exTj", "exT", 1, 3, alphabet=EXJ, invariants=INV_TEXT), ex("exTp", "exT", 1, 3, alphabet=EXP, invariants=INV_TEXT, modes=["E"]),
                   ex("rcvN", "rcvN", 1, 5, alphabet=["a", "(", ")", "["], modes=["E"], invariants=DEFAULT_INVARIANTS + ["TextRefines"]), rec("rcvR", "rcv", 1500, 8, 8)],
         "thorough": [ex("rcv3", "rcv", 3, 4), ex("rcvT", "rcvT", 1, 6, alphabet=["a", "b", "!"]),
+                     ex("exTj", "exT", 1, 5, alphabet=EXJ, invariants=INV_TEXT, modes=["E"]), ex("exTp", "exT", 1, 5, alphabet=EXP, invariants=INV_TEXT, modes=["E"]),
                      ex("rcvN", "rcvN", 1, 6, alphabet=["a", "(", ")", "[", "]"], invariants=DEFAULT_INVARIANTS + ["TextRefines"]), rec("rcvR", "rcv", 30000, 10, 10)],
     },
     "C11": {
         "quick": [ex("memo3", "memo", 3, 3), ex("memoT", "memoT", 1, 4), ex("stat", "stat", 1, 3, kinds=["static", "staticc"]), ex("lrec", "lrec", 1, 5, alphabet=["a", "+"], invariants=NO_DEN), ex("recm", "rec", 1, 4, alphabet=["a", "b", "(", ")"]),
+                  ex("exL", "exL", 1, 5, alphabet=["a", "+"], invariants=NO_DEN), ex("exTp", "exT", 1, 3, alphabet=EXP, invariants=INV_TEXT, modes=["E"]),
                   rec("memoR", "memo", 1500, 8, 8)],
-        "thorough": [ex("memo3", "memo", 3, 4), ex("memoT", "memoT", 1, 6), ex("lrec", "lrec", 1, 7, alphabet=["a", "+"], invariants=NO_DEN), rec("memoR", "memo", 30000, 10, 10)],
+        "thorough": [ex("memo3", "memo", 3, 4), ex("memoT", "memoT", 1, 6), ex("lrec", "lrec", 1, 7, alphabet=["a", "+"], invariants=NO_DEN),
+                     ex("exL", "exL", 1, 7, alphabet=["a", "+"], invariants=NO_DEN), ex("exTp", "exT", 1, 5, alphabet=EXP, invariants=INV_TEXT), rec("memoR", "memo", 30000, 10, 10)],
     },
     "C12": {
         "quick": [ex("rec", "rec", 1, 5, alphabet=["a", "b", "(", ")"]), rec("recR", "rec", 1500, 8, 10),
